@@ -356,3 +356,4 @@ EXPLANATION += (' Round 6: ' + "OWN/classified: a new private helper of sequence
 EXPLANATION += (' Round 7: ' + 'WELLFORMED/no-negative-event-stored and WELLFORMED/reversed-rejected (scenarios shared with C13).')
 EXPLANATION += (' Rounds 9-10: ' + 'PAIR/end-total is located when nothing in the loop of an end_time store, and nothing after it, writes total_time.')
 EXPLANATION += (' Round 11: ' + 'WELLFORMED/assumes-sorted shared from C12.')
+EXPLANATION += (' Round 12: ' + 'PITFALL/previous-wraps (searched position minus one) over the cutting functions.')
